@@ -241,6 +241,195 @@ theorem C17_partial (p : Prog) (hwf : WF p) (hn : NamedConsistent p = true)
     ∃ q, unmarshal (marshal p) = .ok q ∧ execView q = execView p ∧ marshal q = marshal p :=
   ⟨p, C17_partial_roundtrip p hwf hn hu, rfl, rfl⟩
 
+/-! ## sessions: a result, once returned, is not changed by any later call
+
+`run s ops` is a history of `MarshalCode` / `UnmarshalCode` calls of ANY length over a store
+of code objects and retained byte strings (Model.lean, "sessions").  The theorems below say
+that the results a caller keeps are values: whatever is called afterwards, each of them stays
+what the same call, made alone, returns.  For the pure functions of the model this is true by
+construction of `run`; it is stated and proved so that it is a CHECKED tie and not a silent
+assumption: the harness runs real sessions and compares every retained real result, at the
+END of the session, with `(run s ops).2` — which by these theorems is the single-call result.
+A `MarshalCode` that hands out a pooled buffer, or an `UnmarshalCode` whose objects share
+state with a later call, breaks that correspondence. -/
+
+/-- **The store only grows**: after a session of any length every code object and every byte
+    string the store held before is still there, at the same position, unchanged. -/
+theorem session_store_append_only (s : Store) (ops : List Op) :
+    ∃ cs bs, (run s ops).1.codes = s.codes ++ cs ∧ (run s ops).1.blobs = s.blobs ++ bs := by
+  obtain ⟨⟨cs, hc⟩, ⟨bs, hb⟩⟩ := run_extends ops s
+  exact ⟨cs, bs, hc, hb⟩
+
+/-- one result per call -/
+theorem session_one_result_per_call (s : Store) (ops : List Op) :
+    (run s ops).2.length = ops.length := run_length ops s
+
+/-- **What call number `k` returned** is the operation evaluated, alone, on the store as it
+    was when the call was made (after the first `k` calls) — for every session, every `k`. -/
+theorem session_result_at_call (s : Store) (ops : List Op) (k : Nat) (op : Op)
+    (h : ops[k]? = some op) :
+    (run s ops).2[k]? = some (op.eval (run s (ops.take k)).1) :=
+  run_result_at ops s k op h
+
+/-- **Results are independent of the rest of the session** (`session_results_independent`).
+    For every session `ops` of any length from any store `s`, every call `k` of it and the
+    result `r` it returned: performing the same operation ALONE at the end of the session —
+    after every later call has been made — returns the same `r`; and so does performing it
+    alone on the store as it was before call `k` (no earlier call matters beyond providing the
+    operand). -/
+theorem session_results_independent (s : Store) (ops : List Op) (k : Nat) (op : Op) (r : Res)
+    (h : ops[k]? = some op) (hr : (run s ops).2[k]? = some (some r)) :
+    op.eval (run s ops).1 = some r
+    ∧ (run (run s ops).1 [op]).2 = [some r]
+    ∧ (run (run s (ops.take k)).1 [op]).2 = [some r] := by
+  rw [run_result_at ops s k op h] at hr
+  simp only [Option.some.injEq] at hr
+  have hext : (run s ops).1.Extends (run s (ops.take k)).1 := by
+    rw [run_split ops s k op h]
+    exact (run_extends _ _).trans (Store.retain_extends _ _)
+  have hfin := Op.eval_mono hext op r hr
+  refine ⟨hfin, ?_, ?_⟩
+  · rw [run_cons, run_nil, hfin]
+  · rw [run_cons, run_nil, hr]
+
+/-- the single-call form: a `marshal` inside a session returns `marshal p` of the code object
+    `p` it was given, an `unmarshal` returns `unmarshal w` of the bytes it was given -/
+theorem session_marshal_alone (s : Store) (ops : List Op) (k i : Nat) (p : Prog)
+    (h : ops[k]? = some (.marshal i)) (hp : (run s (ops.take k)).1.codes[i]? = some p) :
+    (run s ops).2[k]? = some (some (.bytes (marshal p))) := by
+  rw [run_result_at ops s k _ h]
+  simp [Op.eval, hp]
+
+theorem session_unmarshal_alone (s : Store) (ops : List Op) (k j : Nat) (w : State)
+    (h : ops[k]? = some (.unmarshal j)) (hw : (run s (ops.take k)).1.blobs[j]? = some w) :
+    (run s ops).2[k]? = some (some (match unmarshal w with
+      | .ok q => Res.code q
+      | .error e => Res.failed e)) := by
+  rw [run_result_at ops s k _ h]
+  simp only [Op.eval, hw, Option.map_some]
+  cases unmarshal w <;> rfl
+
+/-- **Reading a retained result back at the END of the session gives what the call returned**:
+    the bytes returned by call `k` are, after all later calls, still the bytes at the position
+    they were retained at, and likewise for a returned code object.  (This is the comparison
+    the harness makes on the real code: a private copy taken immediately against the retained
+    slice at the end, and the retained tree against the model's.) -/
+theorem session_retained_read_back (s : Store) (ops : List Op) (k : Nat) (op : Op) (r : Res)
+    (h : ops[k]? = some op) (hr : (run s ops).2[k]? = some (some r)) :
+    (run s ops).1.readBack ((run s (ops.take k)).1.slot op) r = some r := by
+  rw [run_result_at ops s k op h] at hr
+  simp only [Option.some.injEq] at hr
+  have hext := run_extends (ops.drop (k + 1)) ((run s (ops.take k)).1.retain (op.eval (run s (ops.take k)).1))
+  rw [← run_split ops s k op h, hr] at hext
+  obtain ⟨⟨cs, hc⟩, ⟨bs, hb⟩⟩ := hext
+  cases op with
+  | marshal i =>
+    simp only [Op.eval, Option.map_eq_some_iff] at hr
+    obtain ⟨p, _, rfl⟩ := hr
+    simp only [Store.retain] at hb
+    simp [Store.readBack, Store.slot, hb]
+  | unmarshal j =>
+    simp only [Op.eval, Option.map_eq_some_iff] at hr
+    obtain ⟨w, _, hr⟩ := hr
+    cases hu : unmarshal w with
+    | error e =>
+      rw [hu] at hr
+      subst hr
+      rfl
+    | ok q =>
+      rw [hu] at hr
+      subst hr
+      simp only [Store.retain] at hc
+      simp [Store.readBack, Store.slot, hc]
+
+/-- what `compile` guarantees plus the two guards -/
+def Good (p : Prog) : Prop := WF p ∧ NamedConsistent p = true ∧ ValidUtf8Consts p = true
+
+/-- **Every retained result still behaves like its source, in sessions of any length.**  Start
+    from compiled programs inside the two guards (and byte strings that are marshallings of
+    them).  Then, whatever sequence of calls follows: no call fails, every code object in the
+    final store IS one of the programs the session started with, and every retained byte
+    string is the marshalling of one of them. -/
+theorem session_closed_partial (ops : List Op) : ∀ (s : Store),
+    (∀ p ∈ s.codes, Good p) → (∀ w ∈ s.blobs, ∃ p ∈ s.codes, w = marshal p) →
+    (∀ q ∈ (run s ops).1.codes, q ∈ s.codes)
+    ∧ (∀ w ∈ (run s ops).1.blobs, ∃ p ∈ s.codes, w = marshal p)
+    ∧ (∀ r ∈ (run s ops).2, ∀ e, r ≠ some (.failed e)) := by
+  induction ops with
+  | nil =>
+    intro s _ hb
+    exact ⟨fun q hq => hq, hb, fun r hr => by simp [run_nil] at hr⟩
+  | cons op ops ih =>
+    intro s hg hb
+    -- the store after the first call: same set of programs, blobs still marshallings of them
+    have key : (∀ q ∈ (s.retain (op.eval s)).codes, q ∈ s.codes)
+        ∧ (∀ w ∈ (s.retain (op.eval s)).blobs, ∃ p ∈ s.codes, w = marshal p)
+        ∧ (∀ e, op.eval s ≠ some (.failed e)) := by
+      cases op with
+      | marshal i =>
+        cases hi : s.codes[i]? with
+        | none => simp [Op.eval, hi, Store.retain]; exact hb
+        | some p =>
+          have hp : p ∈ s.codes := List.mem_of_getElem? hi
+          simp only [Op.eval, hi, Option.map_some, Store.retain]
+          refine ⟨fun q hq => hq, ?_, by simp⟩
+          intro w hw
+          rcases List.mem_append.mp hw with hw | hw
+          · exact hb w hw
+          · exact ⟨p, hp, by simpa using hw⟩
+      | unmarshal j =>
+        cases hj : s.blobs[j]? with
+        | none => simp [Op.eval, hj, Store.retain]; exact hb
+        | some w =>
+          obtain ⟨p, hp, rfl⟩ := hb w (List.mem_of_getElem? hj)
+          obtain ⟨hwf, hn, hu⟩ := hg p hp
+          simp only [Op.eval, hj, Option.map_some, C17_partial_roundtrip p hwf hn hu, Store.retain]
+          refine ⟨?_, hb, by simp⟩
+          intro q hq
+          rcases List.mem_append.mp hq with hq | hq
+          · exact hq
+          · simpa [List.mem_singleton.mp hq] using hp
+    obtain ⟨kc, kb, kf⟩ := key
+    have hsub : ∀ p ∈ s.codes, p ∈ (s.retain (op.eval s)).codes := by
+      intro p hp
+      obtain ⟨⟨cs, hc⟩, _⟩ := Store.retain_extends s (op.eval s)
+      rw [hc]
+      exact List.mem_append_left _ hp
+    obtain ⟨ic, ib, ifl⟩ := ih (s.retain (op.eval s)) (fun p hp => hg p (kc p hp))
+      (fun w hw => by
+        obtain ⟨p, hp, hw⟩ := kb w hw
+        exact ⟨p, hsub p hp, hw⟩)
+    rw [run_cons]
+    refine ⟨fun q hq => kc q (ic q hq), ?_, ?_⟩
+    · intro w hw
+      obtain ⟨p, hp, hw⟩ := ib w hw
+      exact ⟨p, kc p hp, hw⟩
+    · intro r hr e
+      rcases List.mem_cons.mp hr with hr | hr
+      · rw [hr]; exact kf e
+      · exact ifl r hr e
+
+/-- ... hence whatever the VM computes from what it reads, it computes from every code object
+    a session leaves in the store what it computes from one of the compiled programs, and
+    unmarshalling any retained byte string gives one of the compiled programs back. -/
+theorem session_behaves_like_source_partial {Outcome : Type} (runVM : View → Outcome) (s : Store)
+    (ops : List Op) (hg : ∀ p ∈ s.codes, Good p) (hb : ∀ w ∈ s.blobs, ∃ p ∈ s.codes, w = marshal p) :
+    (∀ q ∈ (run s ops).1.codes, ∃ p ∈ s.codes, runVM (execView q) = runVM (execView p))
+    ∧ (∀ w ∈ (run s ops).1.blobs, ∃ p ∈ s.codes, unmarshal w = .ok p) := by
+  obtain ⟨hc, hbl, _⟩ := session_closed_partial ops s hg hb
+  refine ⟨fun q hq => ⟨q, hc q hq, rfl⟩, ?_⟩
+  intro w hw
+  obtain ⟨p, hp, rfl⟩ := hbl w hw
+  obtain ⟨hwf, hn, hu⟩ := hg p hp
+  exact ⟨p, hp, C17_partial_roundtrip p hwf hn hu⟩
+
+/-- the statement discriminates: a `MarshalCode` that handed out its internal buffer (every
+    retained byte string a window on it, `aliasedBlobs`) would NOT leave the store `run`
+    leaves — two marshal calls on two different programs suffice. -/
+theorem aliased_buffer_session_differs :
+    ∃ (s : Store) (ops : List Op), (aliasedBlobs (run s ops).1).map (·.code) ≠ (run s ops).1.blobs.map (·.code) :=
+  ⟨⟨[cexUtf8, cexUtf8Reloaded], []⟩, [.marshal 0, .marshal 1], by decide⟩
+
 /-! ## non-vacuity -/
 
 /-- a program with a closure inside a function with a default parameter: root, `f`, inner -/
@@ -268,5 +457,17 @@ example : WF (cexUtf8.mapStr sanitize) := by decide
 example : ∃ q, unmarshal (marshal cexUtf8) = .ok q := C17_unmarshal_total_on_image_any_strings cexUtf8 (by decide)
 example : validStr [195, 169] = true ∧ validStr [255] = false ∧ validStr [237, 160, 128] = false := by decide
 example : sanitize [113, 255, 122] = [113, 239, 191, 189, 122] := by decide
+
+-- sessions: a concrete history (marshal both programs, reload the first bytes, marshal the
+-- reloaded code) returns four results, none of them a failure, and leaves three code objects
+example : (run ⟨[exNested, exNested], []⟩ [.marshal 0, .marshal 1, .unmarshal 0, .marshal 2]).2.length = 4 := by
+  decide
+example : Good exNested := ⟨by decide, by decide, by decide⟩
+example : (run ⟨[exNested], []⟩ [.marshal 0, .unmarshal 0, .marshal 1]).1.codes = [exNested, exNested] := by
+  have h := session_closed_partial [.marshal 0, .unmarshal 0, .marshal 1] ⟨[exNested], []⟩
+    (by intro p hp; simp at hp; subst hp; exact ⟨by decide, by decide, by decide⟩) (by simp)
+  simp only [run_cons, run_nil, Op.eval, Store.retain, List.getElem?_cons_zero, Option.map_some,
+    C17_partial_roundtrip exNested (by decide) (by decide) (by decide), List.nil_append]
+  rfl
 
 end Risor.C17
